@@ -1046,11 +1046,22 @@ func checkIterBounds(p *Prog, r *Roles, res *Result) {
 		}
 		// does Next position the engine iterator?
 		positions := false
-		for _, c := range callsIn(next) {
-			if isEngineCall(c, "Next", "Seek", "Rewind") || (c.Common().IsInvoke() && c.Common().Method.Name() == "Next") {
-				positions = true
+		var positionsIn func(f *ssa.Function, d int)
+		positionsIn = func(f *ssa.Function, d int) {
+			if f == nil || f.Blocks == nil || d > 2 {
+				return
+			}
+			for _, c := range callsIn(f) {
+				if isEngineCall(c, "Next", "Seek", "Rewind") || (c.Common().IsInvoke() && c.Common().Method.Name() == "Next") {
+					positions = true
+				}
+				// a helper of the adapter that advances the engine iterator on behalf of Next
+				if sc := c.Common().StaticCallee(); sc != nil && sc.Pkg == sp && sc != f {
+					positionsIn(sc, d+1)
+				}
 			}
 		}
+		positionsIn(next, 0)
 		if !positions {
 			// pre-filtered buffer: every append to the buffer field is dominated by a bound-check fact
 			okAll, n := true, 0
